@@ -695,7 +695,9 @@ carquet_status_t carquet_writer_close(carquet_writer_t* writer) {
     }
 
     /* Flush and close */
-    fflush(writer->file);
+    if (fflush(writer->file) != 0) {
+        status = CARQUET_ERROR_FILE_WRITE;
+    }
 
 cleanup:
     /* Free resources */
@@ -705,7 +707,10 @@ cleanup:
     }
 
     if (writer->owns_file && writer->file) {
-        fclose(writer->file);
+        /* Buffered data may only reach the sink here: a failing close is a failed write */
+        if (fclose(writer->file) != 0 && status == CARQUET_OK) {
+            status = CARQUET_ERROR_FILE_WRITE;
+        }
         writer->file = NULL;
     }
 
